@@ -9,6 +9,13 @@ Never == <<"never">>
 Two == <<"conde", << << <<"succeed">> >>, << <<"succeed">> >> >> >>   \* a goal with two answers
 LoopP == <<"loop", << << <<"leaf", "x">> >> >> >>                       \* an anyo producer (grows)
 
+(* a relation that diverges without answers and without growing: spin() :- spin() *)
+SpinDefs == [spin |-> [params |-> <<>>, locals |-> <<>>, body |-> << <<"call", "spin", <<>> >> >>]]
+Spin == <<"call", "spin", <<>> >>
+DfsSpin == <<"dfs", << <<Spin>> >> >>          \* a depth-first block that never answers
+TwoD == <<"cond", << << <<"succeed">> >>, << <<"succeed">> >> >> >>
+DfsTwo(b) == <<"dfs", << <<TwoD, Lf(b)>> >> >>  \* a depth-first block with two labelled answers
+
 (* a branch = a prefix of goals followed by its label *)
 FinPrefixes == {<<>>, <<Two>>, <<Always>>, <<Never>>, << <<"fresh", <<>>, <<Always>> >> >>}
 AllPrefixes == FinPrefixes \cup {<<LoopP>>, <<LoopP, Two>>}
@@ -25,7 +32,14 @@ Nested(P) == {<<"conde", <<BranchOf(p1, "b1"),
 (* under a conjunction and inside anyo *)
 Under(P) == {<<"conj", <<Two, g>> >> : g \in Conde2(P)}
 
+(* depth-first blocks as direct disjuncts of an interleaving disjunction *)
+WithDfs(P) == {<<"conde", << <<DfsSpin>>, BranchOf(p, "b2") >> >> : p \in P}
+              \cup {<<"conde", << BranchOf(p, "b1"), <<DfsSpin>> >> >> : p \in P}
+              \cup {<<"conde", << <<DfsSpin>>, BranchOf(p, "b2"), BranchOf(q, "b3") >> >> : p \in P, q \in {<<>>, <<Always>>}}
+              \cup {<<"conde", << <<DfsTwo("b1")>>, <<DfsSpin>>, BranchOf(p, "b3") >> >> : p \in P}
+              \cup {<<"conde", << BranchOf(<<Spin>>, "b1"), BranchOf(p, "b2") >> >> : p \in P}
 FinScope == Conde2(FinPrefixes) \cup Conde3(FinPrefixes) \cup Nested(FinPrefixes) \cup Under(FinPrefixes)
+            \cup WithDfs(FinPrefixes)
 GrowScope == Conde2(AllPrefixes) \cup Nested(AllPrefixes)
              \cup {<<"loop", << <<g>> >> >> : g \in Conde2({<<>>, <<Two>>})}
 
@@ -39,7 +53,10 @@ BranchesOf(g) ==
                            last == cl[Len(cl)]
                        IN IF last[1] = "leaf" /\ last[2] \in LabelSet
                           THEN (last[2] :> <<"conj", cl>>) @@ Go(i + 1)
-                          ELSE BranchesOf(cl[1]) @@ Go(i + 1)
+                          ELSE IF last[1] = "dfs" /\ last[2][1][Len(last[2][1])][1] = "leaf"
+                          THEN (last[2][1][Len(last[2][1])][2] :> <<"conj", cl>>) @@ Go(i + 1)
+                          ELSE IF cl[1][1] = "conde" THEN BranchesOf(cl[1]) @@ Go(i + 1)
+                          ELSE Go(i + 1)
      IN Go(1)
   ELSE IF g[1] = "conj" THEN BranchesOf(g[2][Len(g[2])])
   ELSE IF g[1] = "loop" THEN BranchesOf(g[2][1][1])
